@@ -58,6 +58,9 @@ pub proof fn lemma_abs_kids_ext(a: Seq<Necessity<Element<String>>>, b: Seq<Neces
     assert(abs_kids(a) =~= b);
 }
 
+/// the occurrence counter saturates instead of overflowing (repair of D5)
+pub open spec fn sat_inc(c: u32) -> u32 { if c == u32::MAX { u32::MAX } else { (c + 1) as u32 } }
+
 // ---- list-level ghost operations ----
 pub open spec fn g_idx(kids: Seq<Necessity<GEl>>, name: String) -> int decreases kids.len()
 { if kids.len() == 0 { 0 } else if kids[0].val().name == name { 0 } else { 1 + g_idx(kids.drop_first(), name) } }
@@ -143,7 +146,7 @@ pub open spec fn g_parse_tag(s: GEl, t: Tag, known: Seq<String>, content: Option
     let na = mand_decode(t.attrs);
     let base = if i < s.kids.len() {
         let c = s.kids[i].val();
-        GEl { attrs: spec_merge(c.attrs, na), standalone: c.standalone && !known.contains(n), count: (c.count + 1) as u32, ..c }
+        GEl { attrs: spec_merge(c.attrs, na), standalone: c.standalone && !known.contains(n), count: sat_inc(c.count), ..c }
     } else {
         GEl { name: n, text_some: false, standalone: !known.contains(n), count: 1, attrs: na, kids: Seq::empty(), position: None }
     };
